@@ -31,7 +31,7 @@ XT = 1e-9
 
 def floors(tier):
     return {"splits_checked": 700, "zero_iteration_restarts": 700, "next_iterate_compared": 600, "chains_checked": 350,
-            "reduced_maxcor_checked": 250, "full_memory_restarts_after_a_reduced_one": 250, "splits_with_2plus_pairs": 350, "splits_right_after_a_rejected_pair": 8, "__nontrivial__": 250}
+            "reduced_maxcor_checked": 250, "full_memory_restarts_after_a_reduced_one": 250, "splits_with_2plus_pairs": 350, "splits_right_after_a_rejected_pair": 8, "problems_in_huge_units_with_lowered_curvature_threshold_and_inert_update_function": 30, "__nontrivial__": 250}
 
 
 def cases(tier, seed):
@@ -52,7 +52,10 @@ def cases(tier, seed):
                "eps_SY": float(gen.pick(rng, [2.2e-16, 1e-3, 1e-2, 0.1])) if hard else 2.2e-16,
                "long_chain": bool(rng.random() < 0.25), "eps": float(gen.pick(rng, [1e-8, 1e-8, 1e-3, 1e-1])),
                "jac": "callable" if hard else gen.pick(rng, ["callable", "callable", "callable", None, "2-point"]),  # (acceptance decisions at their threshold + differencing noise: not decidable)
-               "maxfun": int(gen.pick(rng, [100000, 100000, 60, 120, 250])), "rel": gen.pick(rng, [None, None, 1e-6, 1e-3, 1e-2])}
+               "maxfun": int(gen.pick(rng, [100000, 100000, 60, 120, 250])), "rel": gen.pick(rng, [None, None, 1e-6, 1e-3, 1e-2]),
+               # an objective in huge units (values ~1e17..1e19: curvature ratios s.y/y.y far below the default threshold) run with a
+               # curvature threshold lowered accordingly and an update function that changes nothing
+               "huge_units": float(10 ** rng.uniform(16.5, 19.0)) if (i % 6 == 1) else None}
 
 
 def relerr(a, b):
@@ -120,6 +123,9 @@ def run(spec):
     P = gen.make_problem(spec["problem"])
     base = dict(jac=spec.get("jac", "callable"), maxcor=spec["maxcor"], maxls=spec["maxls"], ftol=0.0, gtol=1e-12,
                 maxfun=spec.get("maxfun", 100000), eps=spec.get("eps", 1e-8), eps_SY=spec.get("eps_SY", 2.2e-16), x0_same_object=True)
+    if spec.get("huge_units"):
+        base.update(jac="callable", explicit_scale=float(spec["huge_units"]), eps_SY=1e-40, ufd="identity", maxfun=100000)
+        out.count("problems_in_huge_units_with_lowered_curvature_threshold_and_inert_update_function")
     if base["jac"] in ("2-point", "3-point") and spec.get("rel") is not None:
         base["finite_diff_rel_step"] = spec["rel"]  # the user's relative differencing step
         out.count("finite_difference_problems_with_user_relative_step")
